@@ -518,6 +518,9 @@ vf::Result check(const ICase& c) {
     auto t = vf::split_ws(c.tag);
     if (t.empty())
         return vf::Result::pass();
+    if (vf::ctx().samples.size() < 8 && (vf::ctx().evaluations % 997) == 3)
+        vf::sample(c.tag + " | " + optable::info(c.opcode).form + " op=" + vf::hex(c.opcode) + " x=" + vf::hex(c.expansion) + " pc=" + vf::hex(c.st[flat::F_pc]) +
+                   " sp=" + vf::hex(c.st[flat::F_sp]) + " cpc=" + vf::hex(c.st[flat::F_cpc]));
     if (t[0] == "callret" && t.size() >= 6)
         return check_callret(c, t);
     if (t[0] == "pushpop" && t.size() >= 3)
